@@ -331,13 +331,18 @@ fn cli_expected(c: &CliCase) -> Result<Result<crate::mirror::ModelSpec, String>,
             Ok(n)
         };
         let mut sents = vec![];
+        // the tool reads its files with BufRead::lines(): every line is written with a final '\n', so ONE '\r' before
+        // it belongs to the terminator
+        let cut = |l: &String| -> String { l.strip_suffix('\r').unwrap_or(l).to_string() };
         for f in &c.tok {
             for l in f {
+                let l = &cut(l);
                 sents.push(norm(Sentence::from_tokenized(l).map_err(|e| e.to_string())?)?);
             }
         }
         for f in &c.part {
             for l in f {
+                let l = &cut(l);
                 sents.push(norm(Sentence::from_partial_annotation(l).map_err(|e| e.to_string())?)?);
             }
         }
@@ -345,6 +350,7 @@ fn cli_expected(c: &CliCase) -> Result<Result<crate::mirror::ModelSpec, String>,
         let mut words = std::collections::BTreeSet::new();
         for f in &c.dict {
             for l in f {
+                let l = &cut(l);
                 let s = norm(Sentence::from_tokenized(l).map_err(|e| e.to_string())?)?;
                 for t in s.iter_tokens() {
                     words.insert(t.surface().to_string());
@@ -531,6 +537,11 @@ pub fn cli_cases(tier: Tier) -> Vec<CliCase> {
         ("dict-with-empty-line", (vec![tok1.clone()], vec![], vec![empty_line.clone()])),
         ("part-with-empty-line", (vec![tok1.clone()], vec![empty_line.clone()], vec![])),
         ("no-boundary", (vec![v(&["ab", "abc"])], vec![], vec![])),
+        // the FORM of the files: a byte-order mark at the start of the first line of every file, CRLF line ends,
+        // a CR inside a line and CR CR LF
+        ("bom-first-line", (vec![v(&["\u{feff}a b", "ab a", "あ a1"])], vec![v(&["\u{feff}a|b-a", "a b|a-a"])], vec![v(&["\u{feff}ab", "a/D"])])),
+        ("crlf", (vec![v(&["a b\r", "ab a\r", "あ a1\r"])], vec![v(&["a|b-a\r", "a b|a-a\r"])], vec![v(&["ab\r", "a/D\r"])])),
+        ("cr-inside-and-cr-cr-lf", (vec![v(&["a\rb a", "b ab\r\r", "a b"])], vec![], vec![v(&["ab"])])),
     ];
     let sizes: Vec<(u8, u8, u8, u8, u8)> = tier.pick(vec![(3, 3, 3, 3, 4), (1, 2, 2, 1, 1)], vec![(3, 3, 3, 3, 4), (1, 2, 2, 1, 1), (0, 1, 2, 2, 2), (2, 3, 0, 0, 255)]);
     let mut out = vec![];
